@@ -200,7 +200,7 @@ Shape orient(int n, const vector<pair<int, int>>& e, int r0) {
 }
 // every labelled tree on n nodes (Pruefer sequence) x every root: all rooted labelled trees
 Shape enumShape(vf::Ctx& c, int fixedRoot = -1) {
-  int maxN = (c.s.enumerating() && c.shardN < 16) ? 6 : 7;  // the thorough tier runs the enum laws with 16 shards
+  int maxN = (c.s.enumerating() && c.shardN < 32) ? 6 : 7;  // the thorough tier runs the enum laws with 32 shards
   int n = 1 + static_cast<int>(c.below(7)); if (n > maxN) throw vf::Skip();
   vector<int> s; for (int i = 0; i + 2 < n; ++i) s.push_back(static_cast<int>(c.below(static_cast<uint64_t>(n))));
   int r0 = fixedRoot >= 0 ? 0 : static_cast<int>(c.below(static_cast<uint64_t>(n)));
@@ -256,66 +256,68 @@ struct TreeSut : Sut<TObs> {
 
   // law 3 for one node
   void nodeQueries(const TRef& r, U v) {
-    bool isRoot = v == m.root; string at = " in " + m.show();
-    CHECK(g->hasFather(v) == !isRoot && obs.hasFather(N[v]) == !isRoot, "hasFather(" << v << ")=" << g->hasFather(v) << at);
+    bool isRoot = v == m.root; auto at = [&] { return " in " + m.show(); };
+    CHECK(g->hasFather(v) == !isRoot && obs.hasFather(N[v]) == !isRoot, "hasFather(" << v << ")=" << g->hasFather(v) << at());
     if (isRoot) {
-      CHECK(throwsBpp([&] { g->getFatherOfNode(v); }), "getFatherOfNode(root) did not raise" << at);
-      CHECK(throwsBpp([&] { obs.getEdgeToFather(N[v]); }), "getEdgeToFather(root) did not raise" << at);
+      CHECK(throwsBpp([&] { g->getFatherOfNode(v); }), "getFatherOfNode(root) did not raise" << at());
+      CHECK(throwsBpp([&] { obs.getEdgeToFather(N[v]); }), "getEdgeToFather(root) did not raise" << at());
     } else {
-      CHECK(g->getFatherOfNode(v) == r.par.at(v), "getFatherOfNode(" << v << ")=" << g->getFatherOfNode(v) << at);
-      CHECK(obs.getFatherOfNode(N[v]) == N[r.par.at(v)], "observer getFatherOfNode(" << v << ") is not the father's object" << at);
-      CHECK(g->getEdgeToFather(v) == r.upEdge.at(v), "getEdgeToFather(" << v << ")=" << g->getEdgeToFather(v) << at);
-      CHECK(obs.getEdgeToFather(N[v]) == objOf(m.edges.at(r.upEdge.at(v))), "observer getEdgeToFather(" << v << ") is not the object attached to edge " << r.upEdge.at(v) << at);
+      CHECK(g->getFatherOfNode(v) == r.par.at(v), "getFatherOfNode(" << v << ")=" << g->getFatherOfNode(v) << at());
+      CHECK(obs.getFatherOfNode(N[v]) == N[r.par.at(v)], "observer getFatherOfNode(" << v << ") is not the father's object" << at());
+      CHECK(g->getEdgeToFather(v) == r.upEdge.at(v), "getEdgeToFather(" << v << ")=" << g->getEdgeToFather(v) << at());
+      CHECK(obs.getEdgeToFather(N[v]) == objOf(m.edges.at(r.upEdge.at(v))), "observer getEdgeToFather(" << v << ") is not the object attached to edge " << r.upEdge.at(v) << at());
     }
     vector<U> ch = sorted(r.ch.at(v)), br = m.outEdges(v);
-    CHECK(sorted(g->getSons(v)) == ch, "getSons(" << v << ")=" << str(sorted(g->getSons(v))) << at);
-    CHECK(sorted(labels(obs.getSons(N[v]))) == ch, "observer getSons(" << v << ")=" << str(sorted(labels(obs.getSons(N[v])))) << at);
-    CHECK(g->getNumberOfSons(v) == ch.size() && obs.getNumberOfSons(N[v]) == ch.size(), "getNumberOfSons(" << v << ")=" << g->getNumberOfSons(v) << at);
-    CHECK(sorted(g->getBranches(v)) == br, "getBranches(" << v << ")=" << str(sorted(g->getBranches(v))) << at);
+    CHECK(sorted(g->getSons(v)) == ch, "getSons(" << v << ")=" << str(sorted(g->getSons(v))) << at());
+    CHECK(sorted(labels(obs.getSons(N[v]))) == ch, "observer getSons(" << v << ")=" << str(sorted(labels(obs.getSons(N[v])))) << at());
+    CHECK(g->getNumberOfSons(v) == ch.size() && obs.getNumberOfSons(N[v]) == ch.size(), "getNumberOfSons(" << v << ")=" << g->getNumberOfSons(v) << at());
+    CHECK(sorted(g->getBranches(v)) == br, "getBranches(" << v << ")=" << str(sorted(g->getBranches(v))) << at());
     vector<int> wantTags = sorted(objTags(br));
-    if (!(boundClass(br) && known(K_BOUND))) CHECK(sorted(tags(obs.getBranches(N[v]))) == wantTags, "observer getBranches(" << v << ") objects " << str(sorted(tags(obs.getBranches(N[v])))) << " expected " << str(wantTags) << at);
+    if (!(boundClass(br) && known(K_BOUND))) CHECK(sorted(tags(obs.getBranches(N[v]))) == wantTags, "observer getBranches(" << v << ") objects " << str(sorted(tags(obs.getBranches(N[v])))) << " expected " << str(wantTags) << at());
     // iterators = list queries
     { vector<U> a, b2; const TreeGlobalGraph& cg = *g;
       for (auto it = cg.sonsIterator(v); !it->end(); it->next()) a.push_back(**it);
       for (auto it = g->branchesIterator(v); !it->end(); it->next()) b2.push_back(**it);
-      CHECK(sorted(a) == ch && sorted(b2) == br, "sons/branches iterators of " << v << " give " << str(a) << " / " << str(b2) << at);
+      CHECK(sorted(a) == ch && sorted(b2) == br, "sons/branches iterators of " << v << " give " << str(a) << " / " << str(b2) << at());
       vector<Nref> on; vector<Eref> oe;
       for (auto it = obs.sonsIterator(N[v]); !it->end(); it->next()) on.push_back(**it);
       for (auto it = obs.branchesIterator(N[v]); !it->end(); it->next()) oe.push_back(**it);
-      CHECK(sorted(labels(on)) == ch && sorted(tags(oe)) == wantTags, "observer sons/branches iterators of " << v << " give " << str(labels(on)) << " / " << str(tags(oe)) << at); }
+      CHECK(sorted(labels(on)) == ch && sorted(tags(oe)) == wantTags, "observer sons/branches iterators of " << v << " give " << str(labels(on)) << " / " << str(tags(oe)) << at()); }
     for (U e : br) if (m.edges.at(e).obj >= 0) {
       Eref eo = objOf(m.edges.at(e));
-      CHECK(obs.getFatherOfEdge(eo) == N[v] && obs.getSon(eo) == N[m.edges.at(e).b], "getFatherOfEdge/getSon of the object on edge " << e << at);
+      CHECK(obs.getFatherOfEdge(eo) == N[v] && obs.getSon(eo) == N[m.edges.at(e).b], "getFatherOfEdge/getSon of the object on edge " << e << at());
     }
     vector<U> sn = r.subtree(v), se = r.subtreeEdges(v);
-    CHECK(sorted(g->getSubtreeNodes(v)) == sn, "getSubtreeNodes(" << v << ")=" << str(sorted(g->getSubtreeNodes(v))) << " expected " << str(sn) << at);
-    CHECK(sorted(labels(obs.getSubtreeNodes(N[v]))) == sn, "observer getSubtreeNodes(" << v << ")" << at);
-    CHECK(sorted(g->getSubtreeEdges(v)) == se, "getSubtreeEdges(" << v << ")=" << str(sorted(g->getSubtreeEdges(v))) << " expected " << str(se) << at);
-    if (!(boundClass(se) && known(K_BOUND))) CHECK(sorted(tags(obs.getSubtreeEdges(N[v]))) == sorted(objTags(se)), "observer getSubtreeEdges(" << v << ")" << at);
+    CHECK(sorted(g->getSubtreeNodes(v)) == sn, "getSubtreeNodes(" << v << ")=" << str(sorted(g->getSubtreeNodes(v))) << " expected " << str(sn) << at());
+    CHECK(sorted(labels(obs.getSubtreeNodes(N[v]))) == sn, "observer getSubtreeNodes(" << v << ")" << at());
+    CHECK(sorted(g->getSubtreeEdges(v)) == se, "getSubtreeEdges(" << v << ")=" << str(sorted(g->getSubtreeEdges(v))) << " expected " << str(se) << at());
+    if (!(boundClass(se) && known(K_BOUND))) CHECK(sorted(tags(obs.getSubtreeEdges(N[v]))) == sorted(objTags(se)), "observer getSubtreeEdges(" << v << ")" << at());
   }
   // law 3 for one ordered pair; returns true for an ancestor/descendant pair
   bool pairQueries(const TRef& r, U a, U b, bool objLevel) {
-    string at = " in " + m.show();
+    auto at = [&] { return " in " + m.show(); };
     vector<U> p1 = r.path(a, b, true), p0 = r.path(a, b, false), pe = r.edgePath(a, b);
     vector<U> g1 = g->getNodePathBetweenTwoNodes(a, b, true), g0 = g->getNodePathBetweenTwoNodes(a, b, false), ge = g->getEdgePathBetweenTwoNodes(a, b);
-    CHECK(seqOrReverse(g1, p1), "getNodePathBetweenTwoNodes(" << a << "," << b << ",true)=" << str(g1) << " expected " << str(p1) << at);
-    CHECK(seqOrReverse(g0, p0), "getNodePathBetweenTwoNodes(" << a << "," << b << ",false)=" << str(g0) << " expected " << str(p0) << " (path without its top node)" << at);
-    CHECK(seqOrReverse(ge, pe), "getEdgePathBetweenTwoNodes(" << a << "," << b << ")=" << str(ge) << " expected " << str(pe) << at);
+    CHECK(seqOrReverse(g1, p1), "getNodePathBetweenTwoNodes(" << a << "," << b << ",true)=" << str(g1) << " expected " << str(p1) << at());
+    CHECK(seqOrReverse(g0, p0), "getNodePathBetweenTwoNodes(" << a << "," << b << ",false)=" << str(g0) << " expected " << str(p0) << " (path without its top node)" << at());
+    CHECK(seqOrReverse(ge, pe), "getEdgePathBetweenTwoNodes(" << a << "," << b << ")=" << str(ge) << " expected " << str(pe) << at());
     if (objLevel) {
-      CHECK(seqOrReverse(labels(obs.getNodePathBetweenTwoNodes(N[a], N[b], true)), p1) && seqOrReverse(labels(obs.getNodePathBetweenTwoNodes(N[a], N[b], false)), p0), "observer getNodePathBetweenTwoNodes(" << a << "," << b << ")" << at);
-      if (!(boundClass(pe) && known(K_BOUND))) CHECK(seqOrReverse(tags(obs.getEdgePathBetweenTwoNodes(N[a], N[b])), objTags(pe)), "observer getEdgePathBetweenTwoNodes(" << a << "," << b << ")=" << str(tags(obs.getEdgePathBetweenTwoNodes(N[a], N[b]))) << " expected " << str(objTags(pe)) << at);
+      CHECK(seqOrReverse(labels(obs.getNodePathBetweenTwoNodes(N[a], N[b], true)), p1) && seqOrReverse(labels(obs.getNodePathBetweenTwoNodes(N[a], N[b], false)), p0), "observer getNodePathBetweenTwoNodes(" << a << "," << b << ")" << at());
+      if (!(boundClass(pe) && known(K_BOUND))) CHECK(seqOrReverse(tags(obs.getEdgePathBetweenTwoNodes(N[a], N[b])), objTags(pe)), "observer getEdgePathBetweenTwoNodes(" << a << "," << b << ")=" << str(tags(obs.getEdgePathBetweenTwoNodes(N[a], N[b]))) << " expected " << str(objTags(pe)) << at());
     }
     if (!r.mrcaClass({a, b})) {  // MRCA takes a set of nodes: {a} when a = b
       U l = r.lca(a, b); vector<U> s{a}; if (b != a) s.push_back(b);
-      U got = g->MRCA(s); CHECK(got == l, "MRCA(" << str(s) << ")=" << got << " expected " << l << at);
+      U got = g->MRCA(s); CHECK(got == l, "MRCA(" << str(s) << ")=" << got << " expected " << l << at());
     }
     return a != b && (r.lca(a, b) == a || r.lca(a, b) == b);
   }
   // all structural queries on a valid rooted tree; returns true if some ancestor/descendant pair was queried
-  bool queries(bool objLevel) {
+  // (every bpp::Exception costs a symbolised backtrace and getEdgePathBetweenTwoNodes raises one per upward step: the
+  //  observer-level pair queries are made for a <= b only, and `half` restricts the graph-level ones to a <= b as well)
+  bool queries(bool objLevel, bool half = false) {
     TRef r(m); bool ad = false;
     for (U v : m.nodes) nodeQueries(r, v);
-    for (U a : m.nodes) for (U b : m.nodes) ad |= pairQueries(r, a, b, objLevel);
+    for (U a : m.nodes) for (U b : m.nodes) if (!half || a <= b) ad |= pairQueries(r, a, b, objLevel && a <= b);
     return ad;
   }
   void mrcaCheck(const TRef& r, const vector<U>& s, bool objLevel) {
@@ -347,10 +349,11 @@ string shapeAndMode(const Shape& s, int mode) { ostringstream o; o << s.text << 
 // ================================================================== trees, bounded-exhaustive
 // every rooted labelled tree with 1..6 (thorough: 7) nodes x 3-4 ways of building it: validity, all node queries, all ordered
 // pairs, re-rooting at every node and back.
-LAW(E_tree_queries, ENUM, 8, 16, 0, "a tree with a unary inner node, or >= 2 nodes (ancestor/descendant pairs and re-rooting away from the root occur)") {
+LAW(E_tree_queries, ENUM, 16, 32, 0, "a tree with a unary inner node, or >= 2 nodes (ancestor/descendant pairs and re-rooting away from the root occur)") {
   Shape s = enumShape(c);
   c.desc << s.text; c.shardPoint();
-  int mode = static_cast<int>(c.below(s.n <= 4 ? 4 : 3));
+  // building mode: all 4 up to 4 nodes, 3 for 5 nodes; with 6 or 7 nodes one of the 3, fixed by the shape
+  int mode = s.n <= 5 ? static_cast<int>(c.below(s.n <= 4 ? 4 : 3)) : static_cast<int>(vf::hashStr(s.text) % 3);
   c.desc << " build=" << mode;
   TreeSut t(c); t.build(s, mode);
   CHECK(t.m.isTree(), "internal: the generated shape is not a tree");
@@ -360,7 +363,7 @@ LAW(E_tree_queries, ENUM, 8, 16, 0, "a tree with a unary inner node, or >= 2 nod
   Model base = t.m;
   for (U v : base.nodes) {
     t.rootAtChecked(v, "rootAt");
-    if (v == *base.nodes.rbegin()) t.queries(false);
+    if (v == *base.nodes.rbegin()) t.queries(false, true);
     t.rootAtChecked(base.root, "rootAt back");
     for (auto& kv : base.edges) { const ME& e = t.m.edges.at(kv.first); CHECK(e.a == kv.second.a && e.b == kv.second.b, "internal: model orientation not restored"); }
   }
@@ -368,7 +371,7 @@ LAW(E_tree_queries, ENUM, 8, 16, 0, "a tree with a unary inner node, or >= 2 nod
 }
 
 // one case = (rooted labelled tree, queried node): the exclusion of the known class is exact per query
-LAW(E_tree_leaves, ENUM, 4, 16, 0, "a queried node with >= 2 nodes below it (some node below is unary or branches)") {
+LAW(E_tree_leaves, ENUM, 4, 32, 0, "a queried node with >= 2 nodes below it (some node below is unary or branches)") {
   Shape s = enumShape(c);
   c.desc << s.text; c.shardPoint();
   TreeSut t(c); t.build(s, 0);
@@ -379,7 +382,7 @@ LAW(E_tree_leaves, ENUM, 4, 16, 0, "a queried node with >= 2 nodes below it (som
 }
 
 // one case = (rooted labelled tree, set of 1..4 nodes)
-LAW(E_tree_mrca, ENUM, 8, 16, 0, "a queried set in which one member is an ancestor of another") {
+LAW(E_tree_mrca, ENUM, 8, 32, 0, "a queried set in which one member is an ancestor of another") {
   Shape s = enumShape(c);
   c.desc << s.text; c.shardPoint();
   size_t n = static_cast<size_t>(s.n); size_t mask = 1 + c.below((uint64_t(1) << n) - 1);
@@ -396,7 +399,7 @@ LAW(E_tree_mrca, ENUM, 8, 16, 0, "a queried set in which one member is an ancest
 }
 
 // un-root, then re-root at a node
-LAW(E_tree_unroot_reroot, ENUM, 4, 16, 0, "re-rooting at a node other than the former root") {
+LAW(E_tree_unroot_reroot, ENUM, 4, 32, 0, "re-rooting at a node other than the former root") {
   Shape s = enumShape(c);
   c.desc << s.text; c.shardPoint();
   TreeSut t(c); t.build(s, 0);
@@ -436,7 +439,7 @@ LAW(R_tree_random, RC, 1200, 60000, 40, "a tree with a unary inner node and >= 7
   t.finish();
 }
 
-LAW(R_tree_mrca_leaves, RC, 6000, 200000, 40, "a queried set in which one member is an ancestor of another, or >= 2 nodes below the queried node") {
+LAW(R_tree_mrca_leaves, RC, 16000, 500000, 40, "a queried set in which one member is an ancestor of another, or >= 2 nodes below the queried node") {
   Shape s = randomShape(c, 12);
   c.desc << s.text;
   TreeSut t(c); t.build(s, 0);
@@ -456,7 +459,7 @@ LAW(R_tree_mrca_leaves, RC, 6000, 200000, 40, "a queried set in which one member
 }
 
 // ================================================================== trees, histories
-LAW(H_tree_history, RC, 5000, 300000, 220, "a history in which the validity of the tree changes at least twice") {
+LAW(H_tree_history, RC, 20000, 600000, 220, "a history in which the validity of the tree changes at least twice") {
   TreeSut t(c);
   t.createNode(); c.desc << "new0";
   int nops = c.irange(1, 24); bool lastRef = true; int flips = 0;
@@ -613,23 +616,23 @@ struct DagSut : Sut<DObs> {
     if (r1) { rootedTrueSeen = true; editedSince = false; }
   }
   void queries() {
-    string at = " in " + m.show();
+    auto at = [&] { return " in " + m.show(); };
     for (U v : m.nodes) {
       vector<U> fa = m.in(v), so = m.out(v);
-      CHECK(sorted(g->getFathers(v)) == fa && sorted(labels(obs.getFathers(N[v]))) == fa, "getFathers(" << v << ")=" << str(sorted(g->getFathers(v))) << at);
-      CHECK(sorted(g->getSons(v)) == so && sorted(labels(obs.getSons(N[v]))) == so, "getSons(" << v << ")=" << str(sorted(g->getSons(v))) << at);
-      CHECK(g->getNumberOfFathers(v) == fa.size() && obs.getNumberOfFathers(N[v]) == fa.size() && g->getNumberOfSons(v) == so.size() && obs.getNumberOfSons(N[v]) == so.size(), "getNumberOfFathers/Sons(" << v << ")" << at);
-      CHECK(g->hasFather(v) == !fa.empty() && obs.hasFather(N[v]) == !fa.empty(), "hasFather(" << v << ")" << at);
+      CHECK(sorted(g->getFathers(v)) == fa && sorted(labels(obs.getFathers(N[v]))) == fa, "getFathers(" << v << ")=" << str(sorted(g->getFathers(v))) << at());
+      CHECK(sorted(g->getSons(v)) == so && sorted(labels(obs.getSons(N[v]))) == so, "getSons(" << v << ")=" << str(sorted(g->getSons(v))) << at());
+      CHECK(g->getNumberOfFathers(v) == fa.size() && obs.getNumberOfFathers(N[v]) == fa.size() && g->getNumberOfSons(v) == so.size() && obs.getNumberOfSons(N[v]) == so.size(), "getNumberOfFathers/Sons(" << v << ")" << at());
+      CHECK(g->hasFather(v) == !fa.empty() && obs.hasFather(N[v]) == !fa.empty(), "hasFather(" << v << ")" << at());
       vector<Nref> itf, its;
       for (auto it = obs.fathersIterator(N[v]); !it->end(); it->next()) itf.push_back(**it);
       for (auto it = obs.sonsIterator(N[v]); !it->end(); it->next()) its.push_back(**it);
-      CHECK(sorted(labels(itf)) == fa && sorted(labels(its)) == so, "fathers/sons iterators of " << v << at);
-      for (U e : m.outEdges(v)) if (m.edges.at(e).obj >= 0) CHECK(obs.getFatherOfEdge(objOf(m.edges.at(e))) == N[v] && obs.getSon(objOf(m.edges.at(e))) == N[m.edges.at(e).b], "getFatherOfEdge/getSon of the object on edge " << e << at);
+      CHECK(sorted(labels(itf)) == fa && sorted(labels(its)) == so, "fathers/sons iterators of " << v << at());
+      for (U e : m.outEdges(v)) if (m.edges.at(e).obj >= 0) CHECK(obs.getFatherOfEdge(objOf(m.edges.at(e))) == N[v] && obs.getSon(objOf(m.edges.at(e))) == N[m.edges.at(e).b], "getFatherOfEdge/getSon of the object on edge " << e << at());
       set<U> rs = m.reach(v); vector<U> below(rs.begin(), rs.end()), be;
       for (auto& kv : m.edges) if (rs.count(kv.second.a)) be.push_back(kv.first);
-      CHECK(uniq(g->getBelowNodes(v)) == below && uniq(labels(obs.getBelowNodes(N[v]))) == below, "getBelowNodes(" << v << ")=" << str(uniq(g->getBelowNodes(v))) << " expected " << str(below) << at);
-      CHECK(uniq(g->getBelowEdges(v)) == sorted(be), "getBelowEdges(" << v << ")=" << str(uniq(g->getBelowEdges(v))) << " expected " << str(sorted(be)) << at);
-      if (!(boundClass(be) && known(K_BOUND))) CHECK(uniq(tags(obs.getBelowEdges(N[v]))) == sorted(objTags(be)), "observer getBelowEdges(" << v << ")" << at);
+      CHECK(uniq(g->getBelowNodes(v)) == below && uniq(labels(obs.getBelowNodes(N[v]))) == below, "getBelowNodes(" << v << ")=" << str(uniq(g->getBelowNodes(v))) << " expected " << str(below) << at());
+      CHECK(uniq(g->getBelowEdges(v)) == sorted(be), "getBelowEdges(" << v << ")=" << str(uniq(g->getBelowEdges(v))) << " expected " << str(sorted(be)) << at());
+      if (!(boundClass(be) && known(K_BOUND))) CHECK(uniq(tags(obs.getBelowEdges(N[v]))) == sorted(objTags(be)), "observer getBelowEdges(" << v << ")" << at());
     }
   }
   // leaves under v = nodes reachable from v that have no son; returns the number of nodes below v (v included)
@@ -644,7 +647,7 @@ struct DagSut : Sut<DObs> {
 // all digraphs "forward edge subset of 0<1<..<n-1 (+ at most one backward edge)", nodes created in the order 0.. or n-1..
 struct DagCase { int n; vector<pair<int, int>> edges; bool hasBack; };
 DagCase enumDag(vf::Ctx& c, DagSut& d, bool withBack) {
-  int maxN = (c.s.enumerating() && c.shardN < 16) ? 5 : 6;
+  int maxN = (c.s.enumerating() && c.shardN < 32) ? 5 : 6;
   DagCase dc; dc.n = static_cast<int>(c.below(7)); if (dc.n > maxN) throw vf::Skip();
   bool rev = dc.n >= 2 && c.flag();
   vector<pair<int, int>> fw; for (int i = 0; i < dc.n; ++i) for (int j = i + 1; j < dc.n; ++j) fw.push_back({i, j});
@@ -653,7 +656,8 @@ DagCase enumDag(vf::Ctx& c, DagSut& d, bool withBack) {
   dc.hasBack = false;
   if (withBack && !fw.empty()) { size_t k = c.below(fw.size() + 1); if (k > 0) { dc.edges.push_back({fw[k - 1].second, fw[k - 1].first}); dc.hasBack = true; c.desc << "back " << fw[k - 1].second << ">" << fw[k - 1].first; } }
   c.shardPoint();
-  int how = static_cast<int>(c.below(3)); c.desc << " build=" << how;
+  // addSon / addFather / link: all three up to 4 nodes, beyond one of them (fixed by the digraph)
+  int how = dc.n <= 4 ? static_cast<int>(c.below(3)) : static_cast<int>(vf::hashStr(c.desc.str()) % 3); c.desc << " build=" << how;
   map<int, U> id; for (int i = 0; i < dc.n; ++i) { int lab = rev ? dc.n - 1 - i : i; id[lab] = d.createNode(); }
   int k = 0;
   for (auto& e : dc.edges) {
@@ -666,7 +670,7 @@ DagCase enumDag(vf::Ctx& c, DagSut& d, bool withBack) {
 }
 }  // namespace
 
-LAW(E_dag_small, ENUM, 8, 16, 0, "a digraph with a cycle, or a node with two fathers") {
+LAW(E_dag_small, ENUM, 8, 32, 0, "a digraph with a cycle, or a node with two fathers") {
   DagSut d(c); DagCase dc = enumDag(c, d, true);
   bool twoF = false; for (U v : d.m.nodes) if (d.m.in(v).size() >= 2) twoF = true;
   c.nt(dc.hasBack || twoF);
@@ -679,7 +683,7 @@ LAW(E_dag_small, ENUM, 8, 16, 0, "a digraph with a cycle, or a node with two fat
   d.finish();
 }
 
-LAW(E_dag_leaves, ENUM, 4, 16, 0, "a queried node with >= 2 nodes below it") {
+LAW(E_dag_leaves, ENUM, 4, 32, 0, "a queried node with >= 2 nodes below it") {
   DagSut d(c); DagCase dc = enumDag(c, d, false);
   if (d.m.nodes.empty()) throw vf::Skip();
   U v = d.live()[c.below(d.m.nodes.size())]; c.desc << " getLeavesUnderNode(" << v << ")";
@@ -688,7 +692,7 @@ LAW(E_dag_leaves, ENUM, 4, 16, 0, "a queried node with >= 2 nodes below it") {
   (void)dc;
 }
 
-LAW(H_dag_history, RC, 5000, 300000, 200, "a history in which validity or rootedness changes at least twice") {
+LAW(H_dag_history, RC, 20000, 600000, 200, "a history in which validity or rootedness changes at least twice") {
   DagSut d(c);
   d.createNode(); c.desc << "new0";
   int nops = c.irange(1, 24); bool lastV = true, lastR = true; int flips = 0;
